@@ -18,6 +18,7 @@ Stage B: TLC generates behaviours of the same specification with the REAL moduli
 Stage C: every event is validated by TLC against spec/trace/Trace_X01.tla (abstract channel tracked next to the
          observation; MAC and ciphertext octets recomputed from spec/Eea.tla / spec/Eia.tla for short messages)."""
 import json, os, sys
+from concurrent.futures import ThreadPoolExecutor
 sys.path.insert(0, os.path.dirname(os.path.dirname(os.path.abspath(__file__))))
 from vlib import *
 
@@ -74,6 +75,25 @@ def expect_violation(c, sd, cfg, prop, what, workers=4):
                                  expected_violation=prop, shows=what))
 
 
+def read_walks(directory, prefix):
+    """behaviours written by `tlc -simulate file=<prefix>`: only the start count and the `last` record of every state are
+    needed (vlib.read_sim_behaviours parses the whole states, logs included: far too slow for long walks)"""
+    import re
+    out = []
+    for fn in sorted(f for f in os.listdir(directory) if f.startswith(prefix + "_")):
+        txt = open(os.path.join(directory, fn)).read()
+        os.unlink(os.path.join(directory, fn))
+        states = txt.split("\nSTATE_")[1:]
+        if not states: continue
+        m = re.search(r"(?m)^/\\ sc = (\d+)", states[0])
+        lasts = []
+        for st in states[1:]:
+            m2 = re.search(r"(?ms)^/\\ last = (\[.*?\])\s*(?=^/\\ |\Z)", st)
+            lasts.append(parse_tla_value(m2.group(1)))
+        out.append((int(m.group(1)), lasts))
+    return out
+
+
 def acts_of(recs):
     return [dict(act=r["act"], i=r["i"], m=r["m"], n=r["n"], f=r["f"], b=r["b"], c=r["c"]) for r in recs]
 
@@ -89,6 +109,10 @@ def boundary(prev, cur):
 def run(c):
     thorough = c.tier == "thorough"
     sd = c.spec_dir("specA")
+    import time
+    t0 = [time.time()]
+    def phase(name):
+        log("-- %s done at +%.1fs" % (name, time.time() - c.t0)); t0[0] = time.time()
     # ---- are the concrete cipher specifications usable?  (another builder owns them: read-only, fall back to abstract)
     with open(os.path.join(sd, "MC_X01_concrete.tla"), "w") as f: f.write(KAT)
     with open(os.path.join(sd, "MC_X01_concrete.cfg"), "w") as f: f.write("INIT Init\nNEXT Next\n")
@@ -103,25 +127,30 @@ def run(c):
         extra = {stub: "ChanConcrete.tla"}
     c.cov["concrete_crypto_checked"] = concrete
 
-    # ---- stage A: the laws of the specification on small moduli
-    wk = 8 if thorough else 6
-    main = "MC_X01" if thorough else set_cfg(sd, "MC_X01", "MC_X01_q", [("Starts = {0, 2, 6}", "Starts = {2, 6}"), ("Skips = {1, 3, 4, 5}", "Skips = {3, 4}")])
-    c.stage_a(sd, "MC_X01", main, workers=wk, timeout=1500)
-    c.stage_a(sd, "MC_X01", "MC_X01_fifo", workers=4, timeout=600)
-    c.stage_a(sd, "MC_X01", "MC_X01_resync", workers=4, timeout=600)
-    refuse = "MC_X01_refuse" if thorough else set_cfg(sd, "MC_X01_refuse", "MC_X01_refuse_q", [("Starts = {5, 8, 10}", "Starts = {8}"), ("Skips = {1, 3, 4}", "Skips = {3}")])
-    c.stage_a(sd, "MC_X01", refuse, workers=wk, timeout=1500)
+    # ---- stage A: the laws of the specification on small moduli (jobs run a few at a time)
+    wk = 6 if thorough else 4
+    pos, neg = [], []
+    pos.append(("MC_X01" if thorough else set_cfg(sd, "MC_X01", "MC_X01_q", [("Starts = {0, 2, 6}", "Starts = {2}"), ("Skips = {1, 3, 4, 5}", "Skips = {3, 4}")]), wk))
+    pos.append(("MC_X01_refuse" if thorough else set_cfg(sd, "MC_X01_refuse", "MC_X01_refuse_q", [("Starts = {5, 8, 10}", "Starts = {8}"), ("Skips = {1, 3, 4}", "Skips = {3}")]), wk))
+    pos.append(("MC_X01_fifo", 2))
+    pos.append(("MC_X01_resync", 2))
     if thorough:     # the hostile network once more with NEA0 and the other direction, and with a third wire in flight
-        c.stage_a(sd, "MC_X01", set_cfg(sd, "MC_X01", "MC_X01_nea0", [("Ctx <- CtxSec", "Ctx <- CtxNea0"), ("Starts = {0, 2, 6}", "Starts = {3}")]), workers=wk, timeout=1500)
-        c.stage_a(sd, "MC_X01", set_cfg(sd, "MC_X01", "MC_X01_cap3", [("NetCap = 2", "NetCap = 3"), ("Starts = {0, 2, 6}", "Starts = {2}"), ("Skips = {1, 3, 4, 5}", "Skips = {4}"), ("Msgs = {1, 2}", "Msgs = {1}")]), workers=wk, timeout=1500)
+        pos.append((set_cfg(sd, "MC_X01", "MC_X01_nea0", [("Ctx <- CtxSec", "Ctx <- CtxNea0"), ("Starts = {0, 2, 6}", "Starts = {3}")]), wk))
+        pos.append((set_cfg(sd, "MC_X01", "MC_X01_cap3", [("NetCap = 2", "NetCap = 3"), ("Starts = {0, 2, 6}", "Starts = {2}"), ("Skips = {1, 3, 4, 5}", "Skips = {4}"), ("Msgs = {1, 2}", "Msgs = {1}")]), wk))
     # negative controls (documented boundaries of the design): each must FAIL
-    expect_violation(c, sd, "MC_X01_desync", "NoReject", "SqnMod consecutive losses desynchronise: the next wire is rejected")
-    expect_violation(c, sd, "MC_X01_nia0", "TamperRejectedP", "NIA0: a tampered wire is accepted")
-    expect_violation(c, sd, set_cfg(sd, "MC_X01_nia0", "MC_X01_nia0_auth", [("TamperRejectedP", "AuthenticityP")]), "AuthenticityP", "NIA0: something that was never sent is delivered")
-    expect_violation(c, sd, set_cfg(sd, "MC_X01_nia0", "MC_X01_nia0_replay", [("TamperRejectedP", "NoReplayP")]), "NoReplayP", "NIA0: a wire is accepted twice")
-    expect_violation(c, sd, "MC_X01_wrap", "NoReplayEver", "after the sender ran through the end of the count space an old wire verifies again", workers=wk)
-    expect_violation(c, sd, "MC_X01_lastepoch", "NoReplayEver", "in the last overflow epoch the receiver's estimate overflow+1 wraps: a wire of epoch 0 verifies again (RefuseWrap closes it)", workers=wk)
+    neg.append(("MC_X01_desync", "NoReject", "SqnMod consecutive losses desynchronise: the next wire is rejected"))
+    neg.append(("MC_X01_nia0", "TamperRejectedP", "NIA0: a tampered wire is accepted"))
+    neg.append((set_cfg(sd, "MC_X01_nia0", "MC_X01_nia0_auth", [("TamperRejectedP", "AuthenticityP")]), "AuthenticityP", "NIA0: something that was never sent is delivered"))
+    neg.append((set_cfg(sd, "MC_X01_nia0", "MC_X01_nia0_replay", [("TamperRejectedP", "NoReplayP")]), "NoReplayP", "NIA0: a wire is accepted twice"))
+    neg.append(("MC_X01_wrap", "NoReplayEver", "after the sender ran through the end of the count space an old wire verifies again"))
+    neg.append(("MC_X01_lastepoch", "NoReplayEver", "in the last overflow epoch the receiver's estimate overflow+1 wraps: a wire of epoch 0 verifies again (RefuseWrap closes it)"))
+    with ThreadPoolExecutor(max_workers=3) as ex:
+        futs = [ex.submit(c.stage_a, sd, "MC_X01", cfg, workers=w, timeout=2400) for cfg, w in pos]
+        futs += [ex.submit(expect_violation, c, sd, cfg, prop, what, 2) for cfg, prop, what in neg]
+        for f in futs:
+            f.result()
 
+    phase('stage A')
     # ---- stage B: behaviours chosen by TLC, real moduli
     rng = c.rng
     ctxs = list(ALL_CTX); rng.shuffle(ctxs)
@@ -134,15 +163,15 @@ def run(c):
     nsim = 1500 if thorough else 160
     depth = 45 if thorough else 40
     res = c.tlc(sd, "MC_X01_gen", "MC_X01_gen", workers=1, simulate="file=beh,num=%d" % nsim, depth=depth, timeout=1500)
-    behs = read_sim_behaviours(sd, "beh")
+    behs = read_walks(sd, "beh")
     if len(behs) < nsim // 2:
         raise Infra("simulation produced too few behaviours (%d)\n%s" % (len(behs), res.out[-1500:]))
     c.cov["transitions"] += res.generated
-    for beh in behs:
-        add(beh[0][1]["sc"], acts_of([st["last"] for _, st in beh[1:]]), "simulate")
+    for start, lasts in behs:
+        add(start, acts_of(lasts), "simulate")
     nsimh = len(hists)
-    enum_cfgs = [set_cfg(sd, "MC_X01_enum", "MC_X01_enum_%d" % s, [("Starts = {254}", "Starts = {%d}" % s)] + ([("Depth = 4", "Depth = 5")] if thorough else []))
-                 for s in ((254, 65535, 16777214) if thorough else (254,))]
+    enum_cfgs = [set_cfg(sd, "MC_X01_enum", "MC_X01_enum_%d" % s, [("Starts = {254}", "Starts = {%d}" % s), ("Depth = 4", "Depth = %d" % d)])
+                 for s, d in (((254, 5), (65535, 4), (16777214, 4)) if thorough else ((254, 4),))]
     for cfg in enum_cfgs:
         res = c.tlc(sd, "MC_X01_gen", cfg, workers=4, timeout=1500)
         if not res.clean:
@@ -158,6 +187,7 @@ def run(c):
     c.cov["simulated_behaviours"] = nsimh
     c.cov["enumerated_behaviours"] = len(hists) - nsimh
 
+    phase('generation')
     drv = c.build_driver("channel")
     hp = os.path.join(c.scratch, "hists.json")
     with open(hp, "w") as f: json.dump(hists, f)
@@ -167,8 +197,12 @@ def run(c):
     events = read_ndjson(out1) + read_ndjson(out2)
     c.cov["evaluations"] = sum(1 for e in events if '"TraceReset"' not in e[:40])
 
+    phase('driver')
     # ---- stage C
-    mism = c.validate("Trace_X01", events, stateful=True, shards=12 if thorough else 10, extra_files=extra, timeout=2400)
+    tcfg = "Trace_X01" if thorough else "Trace_X01_quick"      # quick: MAC/ciphertext recomputed at every 2nd event
+    mism = c.validate("Trace_X01", events, stateful=True, shards=12 if thorough else 10, extra_files=extra, timeout=2400, cfg=tcfg)
+
+    phase('validation')
 
     def history_of(idx):
         lo = idx
@@ -204,7 +238,7 @@ def run(c):
         out3 = os.path.join(c.scratch, "confirm.ndjson")
         c.run_driver(drv, ["replay", hp2, out3])
         ev3 = read_ndjson(out3)
-        again = c.validate("Trace_X01", ev3, stateful=True, shards=1, extra_files=extra)
+        again = c.validate("Trace_X01", ev3, stateful=True, shards=1, extra_files=extra)      # every event concrete
         c.cov["traces_validated_against_impl"] -= len(ev3)
         return any(a[1][3] == t[3] for a in again)
     c.triage(firsts, classify, confirm)
@@ -230,6 +264,7 @@ def run(c):
         if e["op"] in ("Send", "Reflect", "Skip") and 0 < len(e["plain"]) <= 32: stats["concrete_short"] += 1
         c.count_distinct(ctx + (e["op"], e["ok"], e["dec"], e["f"], bs, br, min(len(e["plain"]), 33) > 32))
         ps, pr = e["sget"], e["rget"]
+    phase('accounting')
     if len(per_ctx) != len(ALL_CTX):
         raise Infra("only %d of %d security contexts were exercised" % (len(per_ctx), len(ALL_CTX)))
     for k in ("sqn_wraps", "carries_00FFFF_010000", "count_wraps", "accepted", "rejected"):
